@@ -3,15 +3,12 @@
 From Coq Require Import ZArith List String Ascii Bool Lia.
 From Gen Require Import Elements TokenTables SmartsTables.
 From Model Require Import PyBase Graph PeriodicTable Tokenize Smarts Query.
-From Proofs Require Import QueryProofs.
+From Proofs Require Import QueryProofs TokenizeProofs.
 Import ListNotations.
 Open Scope Z_scope.
 
 (* ------------------------------------------------------------------------------------------------------------ *)
 (* 1. exceptions of _query_parse                                                                                  *)
-
-(* an OR list with an empty alternative: ",D1"  "D1,"  "D1,,D2" *)
-Definition bad_or (p : str) : Prop := In [] (split_on "," p) /\ p <> [].
 
 Lemma split_on_nonempty sep l : split_on sep l <> [].
 Proof.
@@ -28,56 +25,56 @@ Proof.
   - intros H. inversion H; subst. exists x. split; [left; reflexivity | exact E].
 Qed.
 
-Lemma first_chars_err ps e : first_chars_res ps = Err e -> e = IndexError /\ In [] ps.
+Lemma first_chars_err ps e : first_chars_res ps = Err e -> In [] ps.
 Proof.
-  intros H. apply map_res_err in H. destruct H as [x [Hx Hf]]. destruct x; [|discriminate].
-  inversion Hf. split; [reflexivity | exact Hx].
+  intros H. apply map_res_err in H. destruct H as [x [Hx Hf]]. destruct x; [exact Hx | discriminate].
 Qed.
 
-Lemma str_eqb_nil_false p : str_eqb p [] = false -> p <> [].
-Proof. intros H ->. discriminate. Qed.
+Lemma no_empty_piece ps : existsb (fun x => str_eqb x []) ps = false -> ~ In [] ps.
+Proof.
+  intros H Hin. assert (existsb (fun x => str_eqb x []) ps = true); [|congruence].
+  apply existsb_exists. exists []. split; [exact Hin | reflexivity].
+Qed.
 
-Lemma prim_step_errors out p e : prim_step out p = Err e ->
-  e = IncorrectSmarts \/ (e = IndexError /\ bad_or p).
+(* one primitive: only the invalid-SMARTS error (code after fix 40c2ce4: an empty OR alternative is rejected first) *)
+Lemma prim_step_errors out p e : prim_step out p = Err e -> e = IncorrectSmarts.
 Proof.
   unfold prim_step.
-  destruct (str_eqb p []) eqn:E0; [discriminate|]. apply str_eqb_nil_false in E0.
+  destruct (str_eqb p []) eqn:E0; [discriminate|].
   destruct (str_eqb p ["a"%char]); [discriminate|].
   destruct (str_eqb p ["A"%char]); [discriminate|].
   destruct (str_eqb p ["!"%char; "R"%char]); [discriminate|].
   destruct (str_eqb p ["M"%char]); [discriminate|].
   cbv zeta.
   pose proof (split_on_nonempty "," p) as Hne.
+  destruct (existsb (fun x => str_eqb x []) (split_on "," p)) eqn:Ee; [intros H; inversion H; reflexivity|].
+  apply no_empty_piece in Ee.
   destruct (negb (Nat.eqb (List.length (split_on "," p)) 1)) eqn:Em.
   - destruct (first_chars_res (split_on "," p)) as [firsts|e'] eqn:Ef.
-    + cbn [andb]. destruct (negb (all_same firsts)); [intros H; inversion H; left; reflexivity|].
+    + cbn [andb]. destruct (negb (all_same firsts)); [intros H; inversion H; reflexivity|].
       destruct (split_on "," p) as [|[|t r] ps'] eqn:Es; [congruence| |].
-      * cbn in Ef. discriminate.
-      * destruct (negb (prim_letter t)); [intros H; inversion H; left; reflexivity|].
+      * exfalso. apply Ee. left. reflexivity.
+      * destruct (negb (prim_letter t)); [intros H; inversion H; reflexivity|].
         match goal with |- context [map_res ?f ?l] => destruct (map_res f l) as [vs|e''] eqn:Ev end.
         -- repeat (match goal with |- context [if ?c then _ else _] => destruct c end); discriminate.
         -- apply map_res_err in Ev. destruct Ev as [x [_ Hx]]. destruct (py_int (tl x)); [discriminate|].
-           inversion Hx; subst. intros H; inversion H. left; reflexivity.
-    + intros H. inversion H; subst. apply first_chars_err in Ef. destruct Ef as [-> Hin].
-      right. split; [reflexivity|]. split; assumption.
+           inversion Hx; subst. intros H; inversion H. reflexivity.
+    + exfalso. apply Ee. eapply first_chars_err. exact Ef.
   - cbn [andb]. destruct (split_on "," p) as [|[|t r] ps'] eqn:Es; [congruence| |].
-    + intros H. inversion H; subst. right. split; [reflexivity|]. split; [rewrite Es; left; reflexivity | exact E0].
-    + destruct (negb (prim_letter t)); [intros H; inversion H; left; reflexivity|].
+    + exfalso. apply Ee. left. reflexivity.
+    + destruct (negb (prim_letter t)); [intros H; inversion H; reflexivity|].
       match goal with |- context [map_res ?f ?l] => destruct (map_res f l) as [vs|e''] eqn:Ev end.
       * repeat (match goal with |- context [if ?c then _ else _] => destruct c end); discriminate.
       * apply map_res_err in Ev. destruct Ev as [x [_ Hx]]. destruct (py_int (tl x)); [discriminate|].
-        inversion Hx; subst. intros H; inversion H. left; reflexivity.
+        inversion Hx; subst. intros H; inversion H. reflexivity.
 Qed.
 
-Lemma prim_loop_errors ps : forall out e, prim_loop out ps = Err e ->
-  e = IncorrectSmarts \/ (e = IndexError /\ exists p, In p ps /\ bad_or p).
+Lemma prim_loop_errors ps : forall out e, prim_loop out ps = Err e -> e = IncorrectSmarts.
 Proof.
   induction ps as [|p r IH]; intros out e; cbn; [discriminate|].
   destruct (prim_step out p) as [out'|e'] eqn:E.
-  - intros H. destruct (IH _ _ H) as [->|[-> [q [Hq Hb]]]]; [left; reflexivity|].
-    right. split; [reflexivity|]. exists q. split; [right; exact Hq | exact Hb].
-  - intros H. inversion H; subst. destruct (prim_step_errors _ _ _ E) as [->|[-> Hb]]; [left; reflexivity|].
-    right. split; [reflexivity|]. exists p. split; [left; reflexivity | exact Hb].
+  - apply IH.
+  - intros H. inversion H; subst. eapply prim_step_errors; eauto.
 Qed.
 
 Lemma parse_elt_err x e : parse_elt x = Err e -> e = ValueError.
@@ -87,22 +84,10 @@ Proof.
   destruct (py_int r); [discriminate|]. intros H; inversion H; reflexivity.
 Qed.
 
-(* the primitives (pieces after the first ';') that the loop of _query_parse sees: the bracket body without the isotope,
-   charge, mapping and stereo substrings *)
-Definition stripped (token : str) : str :=
-  let '(ds, t1') := span is_digit token in
-  let t1 := match ds with [] => token | _ => t1' end in
-  let t2 := match chg_search t1 with Some (a, _, b) => (a ++ b)%list | None => t1 end in
-  let t3 := match mpp_search t2 with Some (a, _) => a | None => t2 end in
-  match str_search t3 with Some (a, _, b) => (a ++ b)%list | None => t3 end.
-Definition primitives_of (token : str) : list str := tl (split_on ";" (stripped token)).
-
-(* _query_parse raises IncorrectSmarts, or ValueError (int() of an '#' element), or IndexError -- the latter exactly
-   through an OR list with an empty alternative *)
-Theorem query_parse_errors token e : query_parse token = Err e ->
-  e = IncorrectSmarts \/ e = ValueError \/ (e = IndexError /\ exists p, In p (primitives_of token) /\ bad_or p).
+(* _query_parse raises IncorrectSmarts, or the ValueError of int() on an '#' element: for EVERY token *)
+Theorem query_parse_errors token e : query_parse token = Err e -> e = IncorrectSmarts \/ e = ValueError.
 Proof.
-  unfold query_parse, primitives_of, stripped.
+  unfold query_parse.
   destruct (span is_digit token) as [ds t1'].
   set (t1 := match ds with [] => token | _ => t1' end).
   destruct (chg_search t1) as [[[a g] b]|].
@@ -113,7 +98,7 @@ Proof.
      [intros H; inversion H; left; reflexivity|];
      destruct (str_eqb e0 []); [intros H; inversion H; left; reflexivity|];
      match goal with |- context [map_res parse_elt ?l] => destruct (map_res parse_elt l) as [els|e'] eqn:Em end;
-     [intros H; apply prim_loop_errors in H; cbn [tl]; tauto
+     [intros H; apply prim_loop_errors in H; tauto
      |intros H; inversion H; subst; apply map_res_err in Em; destruct Em as [x [_ Hx]]; apply parse_elt_err in Hx; tauto]).
   - set (t2 := t1).
     destruct (mpp_search t2) as [[a2 d2]|]; (destruct (str_search _) as [[[a3 g3] b3]|]);
@@ -121,7 +106,7 @@ Proof.
      [intros H; inversion H; left; reflexivity|];
      destruct (str_eqb e0 []); [intros H; inversion H; left; reflexivity|];
      match goal with |- context [map_res parse_elt ?l] => destruct (map_res parse_elt l) as [els|e'] eqn:Em end;
-     [intros H; apply prim_loop_errors in H; cbn [tl]; tauto
+     [intros H; apply prim_loop_errors in H; tauto
      |intros H; inversion H; subst; apply map_res_err in Em; destruct Em as [x [_ Hx]]; apply parse_elt_err in Hx; tauto]).
 Qed.
 
@@ -155,18 +140,20 @@ Proof.
 Qed.
 
 (* keyword arguments the chosen class does not accept: isotope for A / M / a list, anything of ExtendedQuery for M *)
-Definition unsupported_kw (p : parsed) : Prop :=
+Definition unsupported_kw (p : parsed) : bool :=
   match p_element p with
-  | [ENum _] => False
+  | [ENum _] => false
   | [ESym s] =>
-      if str_eqb s ["A"%char] then has_isotope_kw p = true
-      else if str_eqb s ["M"%char] then has_isotope_kw p || has_extended_kw p = true
-      else False
-  | _ => has_isotope_kw p = true
+      if str_eqb s ["A"%char] then has_isotope_kw p
+      else if str_eqb s ["M"%char] then has_isotope_kw p || has_extended_kw p
+      else false
+  | _ => has_isotope_kw p
   end.
 
+(* the construction raises the ValueError of a setter / of an unknown element, or (code after fix edb42d5) the
+   invalid-SMARTS error -- the latter only for a keyword the chosen class does not accept *)
 Theorem build_atom_errors p e : build_atom p = Err e ->
-  e = ValueError \/ (e = TypeError /\ unsupported_kw p).
+  e = ValueError \/ (e = IncorrectSmarts /\ unsupported_kw p = true).
 Proof.
   unfold build_atom, unsupported_kw.
   assert (Hl : forall els e', map_res (fun e0 => match e0 with
@@ -246,41 +233,22 @@ Proof.
 Qed.
 
 (* ------------------------------------------------------------------------------------------------------------ *)
-(* 3. smarts_total at the bracket-atom level                                                                       *)
+(* 3. smarts_total                                                                                                 *)
 
-(* every exception of  smarts('[' + body + ']')  that comes from _query_parse / the atom construction is classified *)
-Theorem smarts_atom_errors body e : smarts_atom body = Err e ->
-  e = IncorrectSmarts \/ e = ValueError \/
-  (e = IndexError /\ exists p, In p (primitives_of body) /\ bad_or p) \/
-  (e = TypeError /\ exists p, query_parse body = Ok p /\ unsupported_kw p).
+(* bracket-atom level: for EVERY body, whatever  smarts('[' + body + ']')  raises in _query_parse or in the atom
+   construction is the invalid-SMARTS error or a ValueError (of int() / of a setter / of an unknown element) *)
+Theorem smarts_atom_total body e : smarts_atom body = Err e -> e = IncorrectSmarts \/ e = ValueError.
 Proof.
   unfold smarts_atom, bind. destruct (query_parse body) as [p|e'] eqn:E.
-  - intros H. destruct (build_atom_errors _ _ H) as [->|[-> Hu]]; [tauto|].
-    right. right. right. split; [reflexivity|]. exists p. split; [reflexivity | exact Hu].
-  - intros H. inversion H; subst. destruct (query_parse_errors _ _ E) as [->|[->|Hi]]; tauto.
+  - intros H. destruct (build_atom_errors _ _ H) as [->|[-> _]]; tauto.
+  - intros H. inversion H; subst. exact (query_parse_errors _ _ E).
 Qed.
 
-(* the full statement (only the invalid-SMARTS error or a ValueError) holds once the two defect families are excluded *)
-Theorem smarts_atom_total_partial body e :
-  (forall p, In p (primitives_of body) -> ~ bad_or p) ->
-  (forall p, query_parse body = Ok p -> ~ unsupported_kw p) ->
-  smarts_atom body = Err e -> e = IncorrectSmarts \/ e = ValueError.
-Proof.
-  intros H1 H2 H. destruct (smarts_atom_errors _ _ H) as [->|[->|[[_ [p [Hp Hb]]]|[_ [p [Hp Hu]]]]]]; [tauto|tauto| |].
-  - exfalso. exact (H1 p Hp Hb).
-  - exfalso. exact (H2 p Hp Hu).
-Qed.
-
-(* ... and is false as stated for all bodies: the unchanged code raises IndexError on "[C;,D1]" and TypeError on "[M+]",
-   "[2A]", "[12C,N]" *)
-Theorem smarts_atom_total_refuted :
-  smarts_atom (s2l "C;,D1") = Err IndexError /\ smarts_atom (s2l "C;D1,") = Err IndexError /\
-  smarts_atom (s2l "M+") = Err TypeError /\ smarts_atom (s2l "M;h1") = Err TypeError /\
-  smarts_atom (s2l "2A") = Err TypeError /\ smarts_atom (s2l "12C,N") = Err TypeError.
-Proof. vm_compute. repeat split; reflexivity. Qed.
-
-(* non-vacuity of the partial statement: bodies that satisfy both hypotheses and are rejected / accepted *)
+(* the inputs that were defects of earlier trees are now rejected with the invalid-SMARTS error; accepted bodies *)
 Theorem smarts_atom_examples :
+  smarts_atom (s2l "C;,D1") = Err IncorrectSmarts /\ smarts_atom (s2l "C;D1,") = Err IncorrectSmarts /\
+  smarts_atom (s2l "M+") = Err IncorrectSmarts /\ smarts_atom (s2l "M;h1") = Err IncorrectSmarts /\
+  smarts_atom (s2l "2A") = Err IncorrectSmarts /\ smarts_atom (s2l "12C,N") = Err IncorrectSmarts /\
   smarts_atom (s2l "C+-") = Err IncorrectSmarts /\ smarts_atom (s2l "C;D15") = Err ValueError /\
   smarts_atom (s2l "C;D1,h1") = Err IncorrectSmarts /\ smarts_atom (s2l ";D1") = Err IncorrectSmarts /\
   smarts_atom (s2l "13C@+;D1,D2;h0;r5,r6;x1;z1,z2;M:7") =
@@ -289,6 +257,26 @@ Theorem smarts_atom_examples :
   smarts_atom (s2l "M;D2;z2") = Ok (QMetal [2] [2]) /\ smarts_atom (s2l "A-;h1") = Ok (QAny (mkQX (-1) false [] [] [1] [] [] false)).
 Proof. vm_compute. repeat split; reflexivity. Qed.
 
+(* string level: smarts_tokenize (= _tokenize, proved total in TokenizeProofs, followed by _query_parse on every
+   bracket body) raises only IncorrectSmiles / IncorrectSmarts / ValueError, for EVERY string *)
+Lemma smarts_token_total t e : smarts_token t = Err e -> vee e = true.
+Proof.
+  unfold smarts_token. destruct t as [ty pl]. destruct pl; try discriminate.
+  destruct ((ty =? 0) || (ty =? 8)); [discriminate|]. destruct (ty =? 5); [|discriminate].
+  destruct (query_parse (list_ascii_of_string s)) eqn:E; [discriminate|]. intros H; inversion H; subst.
+  destruct (query_parse_errors _ _ E) as [->| ->]; reflexivity.
+Qed.
+Theorem smarts_tokenize_total s e : smarts_tokenize s = Err e ->
+  e = IncorrectSmiles \/ e = IncorrectSmarts \/ e = ValueError.
+Proof.
+  assert (V : forall x, vee x = true -> x = IncorrectSmiles \/ x = IncorrectSmarts \/ x = ValueError)
+    by (intros x; destruct x; cbn; intros; try discriminate; tauto).
+  unfold smarts_tokenize. pose proof (tokenize_raw_good s) as G.
+  destruct (tokenize_raw s) as [ts|e'].
+  - intros H. apply map_res_err in H. destruct H as [t [_ Ht]]. apply V. eapply smarts_token_total; eauto.
+  - intros H; inversion H; subst. apply V. exact G.
+Qed.
+
 (* ------------------------------------------------------------------------------------------------------------ *)
 (* 4. the hand-written scanners / constants of the model are those of the source (tables regenerated every run)    *)
 
@@ -296,7 +284,9 @@ Theorem smarts_sources_pinned :
   iso_re_src = "^[0-9]+"%string /\ chg_re_src = "[+-][1-4+-]?"%string /\ mpp_re_src = ":[1-9][0-9]*$"%string /\
   str_re_src = "@[@?]?"%string /\
   not_bond_after = [0; 2; 3; 6; 8] /\
-  final_tests = [(5, "IncorrectSmiles"%string); (7, "-"%string); (11, "IncorrectSmarts"%string); (-1, "-"%string)] /\
+  ring_mark_after = [1; 10] /\
+  final_tests = [(5, "IncorrectSmiles"%string); (7, "-"%string); (11, "IncorrectSmarts"%string); (12, "IncorrectSmarts"%string);
+                 (-1, "-"%string)] /\
   prim_keywords = ["a"%string; "A"%string; "!R"%string; "M"%string] /\
   prim_keys = [("D"%string, "neighbors"%string); ("h"%string, "implicit_hydrogens"%string); ("r"%string, "ring_sizes"%string);
                ("x"%string, "heteroatoms"%string); ("*"%string, "hybridization"%string)] /\
@@ -400,13 +390,14 @@ Proof.
   - split; [intros [H [D|D]]; [discriminate | inversion D; tauto] | intros [H ->]; split; [exact H | right; reflexivity]].
 Qed.
 
-(* spellings outside the documented subset; the last three are defects of the unchanged tokenizer *)
+(* spellings outside the documented subset are rejected with the invalid-SMARTS error (the last six were accepted or
+   crashed in earlier trees: fixes 1719a3d, 9321653, 264ae14, a0736b6) *)
 Theorem bond_spelling_rejected :
   bond_of_spelling "-,=,#" = Err IncorrectSmarts /\ bond_of_spelling "!!-" = Err IncorrectSmarts /\
   bond_of_spelling "!-,=" = Err IncorrectSmarts /\ bond_of_spelling ";@" = Err IncorrectSmarts /\
-  bond_of_spelling "-;!!@" = Err IncorrectSmarts /\ tokenize_now "C!" = Err IncorrectSmarts /\
-  tokenize_now "C!-" = Ok [(0, PStr "C"); (10, PZs [2; 3; 4])].
-Proof. vm_compute. repeat split; reflexivity. Qed.
-Theorem tokenize_total_refuted :
-  tokenize_now "C!~C" = Err KeyError /\ tokenize_now "C-;@;@C" = Err TypeError /\ tokenize_now ";@C" = Err IndexError.
+  bond_of_spelling "-;!!@" = Err IncorrectSmarts /\
+  tokenize_raw "C!-" = Ok [(0, PStr "C"); (10, PZs [2; 3; 4])] /\
+  tokenize_raw "C!" = Err IncorrectSmarts /\ tokenize_raw "C!~C" = Err IncorrectSmarts /\
+  tokenize_raw "C-;@;@C" = Err IncorrectSmarts /\ tokenize_raw ";@C" = Err IncorrectSmarts /\
+  tokenize_raw "C-;" = Err IncorrectSmarts /\ tokenize_raw "C-;!" = Err IncorrectSmarts.
 Proof. vm_compute. repeat split; reflexivity. Qed.
